@@ -469,10 +469,12 @@ MANIFEST = {
                   'unit plus offset mod 2^16; array: indexed by the offset), that Encoding::bytes_to_string segments a '
                   'concatenation of mapped prefix-free codes into exactly those codes, that UTF-16 decoding turns '
                   'surrogate pairs into one scalar value and distributes over well-formed targets, and that the model of '
-                  'the CMap grammar parses every rendering of a table back to its sections.',
+                  'the CMap grammar gives a real outcome on every byte string (its loop fuel, linear in the input, is never '
+                  'exhausted; every repeated element parser consumes input).',
     'level_note': 'Trusted: Coq kernel; hand-written models of cmap.rs / cmap_parser.rs / bytes_to_string tied by '
-                  'differential runs through get_font_encoding + decode_text + ToUnicodeCMap::get; rangemap and encoding_rs '
+                  'differential runs through get_font_encoding + decode_text + ToUnicodeCMap::get (the grammar model is tied to '
+                  'cmap_parser.rs by these runs only, no round-trip theorem); rangemap and encoding_rs '
                   'modelled by contract; extraction/OCaml driver; Rust harness. No axioms.',
-    'technique': 'Coq proof (fold invariant over definitions, segmentation by induction on the code list, parser/renderer round trip) + differential correspondence',
+    'technique': 'Coq proof (fold invariant over definitions, segmentation by induction on the code list, fuel sufficiency of the parser model by a consumed-length invariant) + differential correspondence',
     'design_ref': 'DESIGN.md 6 C15',
 }
